@@ -271,8 +271,9 @@ func execC20Type(c *child.Ctx, t int, r *ref.SplitMix64, extraBodies int) {
 			}
 			c.Count("decoder_family_checks", 1)
 
-			// the handler: timestamp extraction and dispatch of full decoding
-			for _, lvl := range []slog.Level{slog.LevelInfo, slog.LevelDebug} {
+			// the handler: timestamp extraction and dispatch of full decoding - whatever
+			// the handler's log level is (Info, Debug, a trace level, Warn, Error)
+			for _, lvl := range []slog.Level{slog.LevelInfo, slog.LevelDebug, slog.LevelWarn, slog.LevelError, slog.LevelDebug - 4} {
 				h := handler.New(fixedStart, lvl)
 				m, _ := h.GetMessage(frame)
 				if m == nil || m.MessageType != t {
